@@ -7,6 +7,7 @@ import (
 	"context"
 	"encoding/json"
 	"fmt"
+	"google.golang.org/grpc"
 	"os"
 	"path/filepath"
 	"runtime"
@@ -175,6 +176,22 @@ func runCrashCase(c crCase, bin, tmp string) map[string]interface{} {
 		switch c.Point {
 		case "idle":
 			timed("ping", func() error { return cp.Ping() })
+			gb, isGRPC := stub.Broker.(vp.GRPCAPI)
+			if c.Block && isGRPC && !mux {
+				// the plugin announces a brokered listener, then dies; the host dials it with a blocking dial:
+				// the connection information is there, the listener is not
+				stub.Do(vp.Cmd{Op: "serve", ID: 78100, S: "b"})
+				time.Sleep(50 * time.Millisecond)
+				crashNow()
+				timed("broker_dial", func() error {
+					conn, e := gb.B.DialWithOptions(78100, grpc.WithBlock())
+					if e == nil {
+						conn.Close()
+					}
+					return e
+				})
+				break
+			}
 			crashNow()
 		case "in_accept":
 			// the host is waiting in the broker's Accept for an id nobody has dialled yet when the plugin dies
